@@ -715,6 +715,7 @@ def load_corpus():
 
 
 def oracle(run, deep):
+    fn_oracle(run)
     nev = 0
     for cfg in CONFIGS:
         nev += oracle_cfg(run, deep, cfg)
@@ -844,6 +845,7 @@ def triple_mode(im, case):
 
 
 def correspondence(run):
+    fn_correspondence(run)
     lawsof = {}
     terms, meta, terms64, idx64 = [], [], [], []
     for i, case in enumerate(gen_cases(run)):
@@ -926,9 +928,135 @@ def model_says(run, case):
         return "unavailable: %r" % (e,)
 
 
+# ----------------------------------------------------------------------------- integer functions
+FNS = {  # model constructor -> (yaql expression, arity)
+    "FAbs": ("abs($a)", 1), "FSign": ("sign($a)", 1), "FRound": ("round($a)", 1), "FNot": ("bitwiseNot($a)", 1),
+    "FMin": ("min($a, $b)", 2), "FMax": ("max($a, $b)", 2), "FAnd": ("bitwiseAnd($a, $b)", 2),
+    "FOr": ("bitwiseOr($a, $b)", 2), "FXor": ("bitwiseXor($a, $b)", 2), "FPow": ("pow($a, $b)", 2),
+    "FRoundN": ("round($a, $b)", 2), "FShl": ("shiftBitsLeft($a, $b)", 2), "FShr": ("shiftBitsRight($a, $b)", 2),
+    "FPowMod": ("pow($a, $b, $c)", 3),
+}
+HEADERF = "From YV Require Import Model.ScalarsFns."
+
+
+def fn_cases(run):
+    ints = INTS_CORE + ([] if run.quick else INTS_MORE) + [run.rng.getrandbits(k) * run.rng.choice([1, -1]) for k in (5, 70, 140)]
+    small = [0, 1, 2, 3, 7, 64, -1, -2]
+    out = []
+    for f, (_, ar) in FNS.items():
+        if ar == 1:
+            out += [(f, [a]) for a in ints]
+        elif f == "FPow":      # (big integers are slow inside Coq: exponents stay small)
+            out += [(f, [a, b]) for a in ints for b in [0, 1, 2, 3, 7, 16, -1, -2]]
+        elif f in ("FShl", "FShr"):
+            out += [(f, [a, b]) for a in ints for b in small + [100]]
+        elif f == "FRoundN":
+            out += [(f, [a, b]) for a in ints for b in [0, 1, 5, -1, -2, -3, -40, -41]]
+        elif f == "FPowMod":
+            out += [(f, [a, b, c]) for a in ints for b in [0, 1, 5, 16] for c in [1, -3, 7, 2 ** 63 + 1, 0]]
+        else:
+            out += [(f, [a, b]) for a in ints for b in ints]
+    return out
+
+
+def fn_observe(im, f, args):
+    o = im.run(FNS[f][0], **dict(zip("abc", args)))
+    return o[1][1] if o[0] == "val" and o[1][0] == "int" else None, o
+
+
+def fn_correspondence(run):
+    im = impl("CDefault")
+    terms, meta = [], []
+    for f, args in fn_cases(run):
+        got, raw = fn_observe(im, f, args)
+        run.case(("fn", f, tuple(args)), nontrivial=True)
+        run.count("fn:" + f)
+        terms.append("(%s, %s, %s)" % (f, gal.zlist(args), gal.opt(got, gal.z)))
+        meta.append((f, args, raw))
+    for i in run.coq_mismatches(HEADERF, "fcase", "fcase_ok", terms, shard=600)[:20]:
+        f, args, raw = meta[i]
+        law = fn_law(im, f, args)
+        kind_ = "violation" if law else "mismatch"
+        run.fail(kind_, "%s with %s: implementation %r differs from the integer-function model%s"
+                 % (FNS[f][0], args, raw, "; " + law if law else ""),
+                 {"fn": f, "args": [str(a) for a in args], "implementation": repr(raw), "law": law})
+
+
+def fn_law(im, f, args):
+    """the specification of C15_int_functions_exact evaluated on the implementation; None = holds"""
+    got, raw = fn_observe(im, f, args)
+    a = args[0]
+    b = args[1] if len(args) > 1 else None
+
+    def need(cond, what):
+        return None if cond else what
+    if f == "FAbs":
+        return need(got is not None and got >= 0 and got in (a, -a), "abs(a) is not |a|")
+    if f == "FSign":
+        return need(got in (-1, 0, 1) and got * abs(a) == a, "sign(a) * |a| is not a")
+    if f in ("FMin", "FMax"):
+        return need(got in (a, b) and (got >= max(a, b) if f == "FMax" else got <= min(a, b)), "min/max is not the smaller/larger operand")
+    if f == "FPow":
+        if b < 0:
+            return need(got is None, "pow with a negative exponent gave an integer")
+        r = 1
+        for _ in range(b):
+            r *= a
+        return need(got == r, "pow(a, b) is not the b-fold product")
+    if f == "FPowMod":
+        c = args[2]
+        if c == 0:
+            return need(got is None, "pow modulo 0 gave a value")
+        r = 1
+        for _ in range(b):
+            r *= a
+        return need(got is not None and (r - got) % c == 0 and (0 <= got < c or c < got <= 0), "pow(a, b, c) is not congruent/in range")
+    if f == "FRound":
+        return need(got == a, "round(a) is not a")
+    if f == "FRoundN":
+        if b >= 0:
+            return need(got == a, "round(a, n>=0) is not a")
+        p = 10 ** (-b)
+        return need(got is not None and got % p == 0 and 2 * abs(got - a) <= p and (2 * abs(got - a) != p or (got // p) % 2 == 0),
+                    "round(a, -k) is not the nearest multiple of 10^k with ties to even")
+    if f == "FNot":
+        return need(got == -a - 1, "bitwiseNot(a) is not -a-1")
+    if f in ("FAnd", "FOr", "FXor"):
+        x, _ = fn_observe(im, "FAnd", args)
+        o, _ = fn_observe(im, "FOr", args)
+        e, _ = fn_observe(im, "FXor", args)
+        ok = None not in (x, o, e) and x + o == a + b and e == o - x
+        nb = max(a.bit_length(), b.bit_length()) + 2
+        ok = ok and all(((x >> i) & 1) == (((a >> i) & 1) & ((b >> i) & 1)) for i in range(nb))
+        return need(ok, "bitwise and/or/xor are not the bit-by-bit two's complement operations")
+    if f in ("FShl", "FShr"):
+        if b < 0:
+            return need(got is None, "shift by a negative count gave a value")
+        return need(got == (a * 2 ** b if f == "FShl" else a // 2 ** b), "shift is not multiplication / floor division by 2^n")
+    return None
+
+
+def fn_oracle(run):
+    im = impl("CDefault")
+    seen = set()
+    for f, args in fn_cases(run):
+        run.count("law:fn:" + f)
+        law = fn_law(im, f, args)
+        if law and f not in seen:
+            seen.add(f)
+            run.fail("violation", "integer function law: %s" % law,
+                     {"fn": f, "args": [str(a) for a in args], "expression": FNS[f][0], "observed": repr(fn_observe(im, f, args)[1]), "required": law})
+
+
 # ----------------------------------------------------------------------------- replay
 def replay(run, data):
     d = data["data"]
+    if "fn" in d:
+        args = [int(a) for a in d["args"]]
+        got, _ = fn_observe(impl("CDefault"), d["fn"], args)
+        if fn_law(impl("CDefault"), d["fn"], args):
+            return False
+        return not run.coq_mismatches(HEADERF, "fcase", "fcase_ok", ["(%s, %s, %s)" % (d["fn"], gal.zlist(args), gal.opt(got, gal.z))])
     im = impl(d.get("cfg") or (d.get("case") or {}).get("cfg") or "CDefault")
     if "law" in d and "vals" in d:
         laws = Laws(im)
